@@ -136,6 +136,29 @@ class Gen:
                     nm = r.choice(SNAPS)
                 self.snapop(ops, f"snap_release {g} {nm}")
             elif k == "snap_prune": self.snapop(ops, f"snap_prune {max(0, self.clock - r.choice([0, 1, 3, 10, 2000]))}")
+            elif k == "retake":
+                # the same name taken twice with row-changing writes in between, then rolled back
+                nm = r.choice(SNAPS)
+                def mutate():
+                    for _ in range(r.randint(1, 3)):
+                        kk = r.choice(["relays", "relays", "mls", "mlsdel", "secret", "group"])
+                        if kk == "relays":
+                            rs = r.sample([1, 2, 3, 4], r.choice([0, 1, 2, 3]))
+                            ops.append(f"replace_relays {g} {','.join(map(str, rs)) or '-'}")
+                        elif kk == "mls": ops.append(f"mls_write {g} {r.choice(MLS_KEYS)} {r.choice([1,2,3])}")
+                        elif kk == "mlsdel": ops.append(f"mls_delete {g} {r.choice(MLS_KEYS)}")
+                        elif kk == "secret": ops.append(f"save_secret {g} {r.choice(EPOCHS)} {r.choice([1,2,3])}")
+                        else: ops.append(self.group(g, within=True))
+                mutate()
+                self.clock += r.choice([0, 1])
+                self.snapop(ops, f"snap_create {g} {nm} {self.clock}")
+                mutate()
+                self.clock += r.choice([0, 1, 5])
+                self.snapop(ops, f"snap_create {g} {nm} {self.clock}")
+                if r.random() < 0.5: ops.append(f"snap_list {g}")
+                mutate()
+                self.snapop(ops, f"snap_rollback {g} {nm}")
+                self.live_snaps = [x for x in self.live_snaps if x != (g, nm)]
             elif k == "dump": ops.append("dump")
         ops.append("dump")
         return ops
@@ -156,10 +179,10 @@ PROFILES = {
     "C18": {"weights": {"message": 30, "sweep": 8, "messages": 8, "last": 3, "group": 2, "inval": 2, "updlast": 3, "find": 2},
             "offsets": [TWO63 - 1, TWO63, TWO64 - 1], "within": True},
     "C09": {"weights": {"group": 6, "message": 8, "pm": 5, "welcome": 3, "pw": 2, "relays": 6, "secret": 6, "mls": 8,
-                        "snap_create": 8, "snap_rollback": 8, "snap_release": 3, "snap_prune": 2, "inval": 2, "find": 3},
+                        "snap_create": 8, "snap_rollback": 8, "snap_release": 3, "snap_prune": 2, "inval": 2, "find": 3, "retake": 3},
             "within": True, "dump_around_snap": True},
     "C10": {"weights": {"group": 6, "message": 10, "pm": 8, "welcome": 5, "pw": 3, "relays": 4, "secret": 4, "mls": 5,
-                        "snap_create": 4, "snap_rollback": 4, "snap_release": 2, "snap_prune": 2, "inval": 4, "find": 8,
+                        "snap_create": 4, "snap_rollback": 4, "snap_release": 2, "snap_prune": 2, "inval": 4, "find": 8, "retake": 2,
                         "queries": 8, "retry": 4, "tag": 5, "messages": 6, "last": 3, "sweep": 2, "updlast": 2, "dump": 1},
             "within": True, "tagmodes": [0, 0, 1], "offsets": [TWO63, TWO64 - 1], "all_groups": True, "missing": 0.04},
     "C06store": {"weights": {"group": 6, "message": 8, "welcome": 5, "relays": 5, "messages": 10, "queries": 5, "find": 3},
@@ -355,7 +378,7 @@ def sections(s, letters):
     return res
 
 def parse_dump(d):
-    top = sections(d, "GPWQX")
+    top = sections(d, "GPWQXI")
     groups = {}
     for gs in split_top(top["G"]):
         m = re.match(r"(g\([^)]*\))(.*)$", gs)
@@ -369,7 +392,8 @@ def parse_dump(d):
     for row in split_top(top["X"]):
         g = int(row.split(".")[0])
         mls.setdefault(g, []).append(row)
-    return {"groups": groups, "P": top["P"], "W": top["W"], "Q": top["Q"], "mls": mls}
+    index = dict(x.split(">") for x in split_top(top.get("I", "")) if x)
+    return {"groups": groups, "P": top["P"], "W": top["W"], "Q": top["Q"], "mls": mls, "index": index}
 
 def oracle_c09(cases):
     """C09 on the implementation alone, from full dumps taken around every snapshot operation:
@@ -445,6 +469,17 @@ def oracle_c09(cases):
                     exp = [x for x in before["groups"][gid]["snaps"] if x.split("@")[0] != str(name)]
                     if after["groups"][gid]["snaps"] != exp:
                         fail(c, k, "rollback-snapshots", f"snapshots after rollback {after['groups'][gid]['snaps']} != {exp}")
+                # the by-nostr-id lookup must answer for exactly the groups that hold each id now
+                for nid, ans in after["index"].items():
+                    holders = [g for g, gd in after["groups"].items() if gd["rec"][2:].split(",")[1] == nid]
+                    if ans == "-" and holders:
+                        fail(c, k, "nostr-index-lost-group", f"after rollback nostr id {nid} finds nothing but group {holders} holds it")
+                    if ans != "-":
+                        g_ans = int(ans.split(".")[0])
+                        if g_ans not in holders:
+                            fail(c, k, "nostr-index-ghost", f"after rollback nostr id {nid} answers group {g_ans} which does not hold it (holders {holders})")
+                        elif after["groups"][g_ans]["rec"][2:].split(",")[9] != ans.split(".")[1]:
+                            fail(c, k, "nostr-index-stale", f"after rollback nostr id {nid} answers a stale copy of group {g_ans}")
                 # exactness
                 if d0 is not None:
                     g0, g2 = d0["groups"].get(gid), after["groups"].get(gid)
